@@ -42,7 +42,6 @@ package abci
 
 //@ func applicationState.resetProposal
 //@   trusted
-//@   requires s != nil
 //@   modifies s.proposal, s.canonicalState, *old(s.proposal)
 //@   ensures s.proposal != nil && fresh(s.proposal) && s.proposal.resultsBeginBlock == nil && s.proposal.resultsDeliverTx == nil && s.proposal.resultsEndBlock == nil && s.proposal.header == nil && s.proposal.hash == nil
 //@   note installs a fresh proposal state over a new overlay of the canonical state; nothing of the previous proposal's results survives (tree construction is outside the contracts)
@@ -73,3 +72,47 @@ package abci
 //@   loop 1 invariant forall j int :: 0 <= j && j < idx() ==> ufr[error]("CanPruneConsensus", p.handlers[j], v) == nil
 //@   ensures err == nil ==> (forall j int :: 0 <= j && j < len(p.handlers) ==> ufr[error]("CanPruneConsensus", p.handlers[j], v) == nil)
 //@   note nil is returned only if every registered handler was asked about exactly this version and answered nil; a handler's answer is treated as a function of (handler, version) (noeffect.txt pure:CanPruneConsensus)
+
+// ---- transaction admission (C09, C16): size limit, envelope, signature, signer ----
+
+//@ func applicationState.ConsensusParameters
+//@   props C09 C16
+//@   requires s != nil
+//@   modifies nothing
+//@   ensures result == s.blockParams
+
+//@ func applicationState.Upgrader
+//@   props C09
+//@   requires s != nil
+//@   modifies nothing
+
+//@ func abciMux.decodeTx
+//@   props C09 C16
+//@   requires mux != nil && mux.state != nil && ctx != nil
+//@   modifies nothing
+//@   precall cbor\.Unmarshal$ :: params != nil && (params.MaxTxSize == 0 || uint64(len(rawTx)) <= params.MaxTxSize)
+//@   ensures err == nil ==> result0 != nil && result1 != nil && transaction.TxSigOK(result1) && len(result0.Method) > 0
+//@   ensures err == nil ==> old(mux.state.blockParams) != nil && (old(mux.state.blockParams.MaxTxSize) == 0 || uint64(len(rawTx)) <= old(mux.state.blockParams.MaxTxSize))
+//@   note nothing is decoded before the size limit is checked; a transaction is returned only if its envelope signature verified under the transaction context and its method is non-empty
+
+//@ func abciMux.executeTx
+//@   props C09
+//@   requires mux != nil && mux.state != nil && ctx != nil
+//@   precall abciMux\)\.processTx$ :: argIs(1, tx) && transaction.TxSigOK(sigTx) && api.Signer(ctx) == sigTx.Signed.Signature.PublicKey
+//@   note a transaction is processed only after its signature verified, with the context's signer set to exactly the key that signed it
+
+// ---- proposal preparation (C01): the proposer executes its proposal with the commit info validators will see ----
+
+//@ func abciMux.PrepareProposal
+//@   props C01
+//@   requires mux != nil && mux.state != nil
+//@   loop 1 invariant len(lastCommit.Votes) == idx() && lastCommit.Round == req.LocalLastCommit.Round
+//@   loop 1 invariant forall j int :: 0 <= j && j < idx() ==> lastCommit.Votes[j].SignedLastBlock == req.LocalLastCommit.Votes[j].SignedLastBlock
+//@   loop 1 invariant forall j int :: 0 <= j && j < idx() ==> lastCommit.Votes[j].Validator.Power == req.LocalLastCommit.Votes[j].Validator.Power
+//@   loop 1 invariant forall j int :: 0 <= j && j < idx() ==> bytesId(lastCommit.Votes[j].Validator.Address) == bytesId(req.LocalLastCommit.Votes[j].Validator.Address)
+//@   precall abciMux\)\.executeProposal$ :: lastCommit.Round == req.LocalLastCommit.Round && len(lastCommit.Votes) == len(req.LocalLastCommit.Votes)
+//@   precall abciMux\)\.executeProposal$ :: forall j int :: 0 <= j && j < len(lastCommit.Votes) ==> lastCommit.Votes[j].SignedLastBlock == req.LocalLastCommit.Votes[j].SignedLastBlock
+//@   precall abciMux\)\.executeProposal$ :: forall j int :: 0 <= j && j < len(lastCommit.Votes) ==> lastCommit.Votes[j].Validator.Power == req.LocalLastCommit.Votes[j].Validator.Power
+//@   precall abciMux\)\.executeProposal$ :: forall j int :: 0 <= j && j < len(lastCommit.Votes) ==> bytesId(lastCommit.Votes[j].Validator.Address) == bytesId(req.LocalLastCommit.Votes[j].Validator.Address)
+//@   precall abciMux\)\.executeProposal$ :: header.Height == req.Height && header.Time == req.Time && bytesId(header.ProposerAddress) == bytesId(req.ProposerAddress) && bytesId(header.NextValidatorsHash) == bytesId(req.NextValidatorsHash)
+//@   note the commit info handed to the proposal execution has one entry per vote of the local last commit (same validator, same signed flag, same order) and the header carries the request's height, time, proposer and next-validators hash: what the proposer executes is what validators and replaying nodes execute for the same block
